@@ -178,6 +178,10 @@ let check_watcher id w evs dump =
 
 let () =
   each_line (function
+    | [ "c15.stall"; step; secs ] ->
+      (* the harness's watchdog: a call of the store under test did not return (cancel_isolated / no_dead_listener: cancelling
+         a watch, a slow watcher or a departed one never blocks the store or the other watchers) *)
+      specviol step "c15_store_call_blocked" (Printf.sprintf "no step finished for %s s: the store call of step [%s] never returned (the run was cut there)" secs step)
     | [ "c15.begin"; _; kind ] -> stat "histories"; stat ("hist." ^ kind); reset kind
     | [ "c15.op"; id; kind; op; _client; key; flags; inver; inrev; inidx; payload; vals; code; outver; outrev; outidx; result; dump ] ->
       stat ("op." ^ op); stat ("code." ^ code); stat ("kind." ^ kind);
